@@ -105,8 +105,8 @@ func c16a(c *Ctx) {
 					if et == "false" && hasLit(em, "-$0") {
 						f = true
 					}
-					if et == "(0 < builtin:len($1))" && hasLit(em, "+$0") {
-						t = true
+					if nt, flip := normCondTerm(et); nt == "(0 < builtin:len($1))" && !flip && hasLit(em, "+$0") {
+						t = true // len(path) > 0, path != "" alike
 					}
 				}
 				ok = f && t
@@ -154,7 +154,7 @@ func c16a(c *Ctx) {
 					}
 				}
 			}
-			c.Check(guard && in(roleTerm(fn, 1), path), fmt.Sprintf("%s/emitLineMarker#%d/guarded", c.W.FuncKey(fn), n), c.W.Pos(call.Pos()), "marker written only under shouldEmitLineMarkers(enable, path) for the same path", "emitLineMarker is called without the guard shouldEmitLineMarkers(enableLineMarkers, inputFilepath) on the path it prints (markers could appear without an input path or when disabled)")
+			c.Check(guard && in(roleTerm(fn, 1), path), fmt.Sprintf("%s/emitLineMarker#%d/guarded", c.W.FuncKey(fn), n), c.W.Pos(call.Pos()), "marker written only under shouldEmitLineMarkers(enable, path) for the same path", "emitLineMarker is called without the guard shouldEmitLineMarkers(enableLineMarkers, inputFilepath) on the path it prints (markers could appear without an input path or when disabled); guards here: "+fmt.Sprint(prettyAll(must)))
 		}
 	}
 	c.Check(n == 2, "emitLineMarker/call-sites", c.W.FuncPos(emit), "two direct marker sites (tryEmitLineMarker, raw lines)", fmt.Sprintf("found %d direct emitLineMarker calls, expected 2", n))
